@@ -15,6 +15,15 @@ import vlib
 PID = "C15"
 FLAVOURS = [None, None, "url", "headers", "reject"]
 
+# clauses of the specification the implementation is known not to meet (design/C15.md, proposed known_findings entries)
+DEVIATIONS = {
+    "known-deviation: every value the pipeline produced under one name is forwarded": "C15-pipeline-second-value",
+    "known-deviation: a header the pipeline produced under the name of the continued forwarding header is forwarded":
+        "C15-pipeline-forwarded-overwritten",
+    "known-deviation: X-Forwarded-For / Forwarded extended by the peer address whatever the Host of the request "
+    "contains": "C15-forwarded-host-injection",
+}
+
 
 def gen_cases(R, n):
     return [gen_proxyfwd.gen_case(R.rng, R.rng.choice(FLAVOURS)) for _ in range(n)]
@@ -39,22 +48,32 @@ def evaluate(exe, cases):
 
 
 def impl_broken(i):
-    return (not isinstance(i, dict)) or any(k in i for k in ("crash", "panic", "harness_error", "unparsable", "load"))
+    return (not isinstance(i, dict)) or any(k in i for k in ("crash", "panic", "harness_error", "unparsable"))
 
 
 def signature(ev):
-    """None if the case is fine, else a hashable description of what is wrong"""
+    """None if the case is fine; ("skip", why) / ("known", ids) if it does not count against the code;
+    else a hashable description of what is wrong"""
     i, mres, mstats, sres, _ = ev
     if impl_broken(i):
-        return ("harness", tuple(sorted(k for k in i if k in ("crash", "panic", "harness_error", "unparsable", "load")))
+        return ("harness", tuple(sorted(k for k in i if k in ("crash", "panic", "harness_error", "unparsable")))
                 if isinstance(i, dict) else "?")
+    if isinstance(i, dict) and "load" in i:
+        return ("skip", "rule configuration rejected by heimdall: " + str(i["load"]))
     if isinstance(mres, dict) and mres.get("unmodelled"):
-        return None
-    if sres:
-        return ("spec", sres[0])
+        return ("unmodelled", "the model declines the case")
+    real = [v for v in sres if v not in DEVIATIONS]
+    if real:
+        return ("spec", real[0])
     if vlib.canon(i) != vlib.canon(mres):
         return ("model", diff_field(i, mres))
+    if sres:
+        return ("known", tuple(sorted(DEVIATIONS[v] for v in sres)))
     return None
+
+
+def is_failure(sig):
+    return sig is not None and sig[0] not in ("skip", "known")
 
 
 def diff_field(i, m):
@@ -64,7 +83,7 @@ def diff_field(i, m):
         if i.get(k) != m.get(k):
             return k
     iu, mu = i.get("up") or {}, m.get("up") or {}
-    for k in ("tls", "method", "target", "host", "headers", "body", "proto"):
+    for k in ("tls", "dial", "method", "target", "host", "headers", "body", "proto"):
         if iu.get(k) != mu.get(k):
             return "up." + k
     return "other"
@@ -112,6 +131,7 @@ def _variants(c):
     v(lambda d: d["rule"].__setitem__("host", "ip"))
     v(lambda d: d["rule"].__setitem__("slashes", "no_decode"))
     v(lambda d: (d.__setitem__("trusted", None), d.__setitem__("peer", "127.0.0.1")))
+    v(lambda d: d.__setitem__("tls", False))
     t = c["req"]["target"]
     if "?" in t:
         p, q = t.split("?", 1)
@@ -162,7 +182,8 @@ def shrink(exe, case, sig, budget=10):
 def nontrivial(st):
     return st.get("outcome") in ("http", "https") and (
         st.get("escapes", 0) > 0 or st.get("stripHits", 0) > 0 or st.get("add", 0) > 0 or st.get("stripQHits", 0) > 0
-        or st.get("collide", 0) > 0 or st.get("clientFwdHeaders", 0) > 0)
+        or st.get("collide", 0) > 0 or st.get("clientFwdHeaders", 0) > 0 or st.get("hopByHop", 0) > 0
+        or st.get("forwardedUri", 0) > 0 or st.get("listenerTLS", 0) > 0)
 
 
 # ---------------------------------------------------------------------------------------------------------------
@@ -190,9 +211,11 @@ def run(R):
     outcomes = collections.Counter()
     slashes = collections.Counter()
     applicable = collections.Counter()
+    skipped = collections.Counter()
+    known = collections.Counter()
     nontriv = set()
     total = 0
-    unmodelled = 0
+    unmodelled = []
     failures = {}           # signature -> (case, evaluation)
     nfail = 0
     sample = None
@@ -203,40 +226,64 @@ def run(R):
         for c, ev in zip(cases, evs):
             total += 1
             i, mres, st, sres, sapp = ev
-            if isinstance(mres, dict) and mres.get("unmodelled"):
-                unmodelled += 1
             outcomes[st.get("outcome", "?")] += 1
             slashes[st.get("slashes", "?")] += 1
             for k, v in st.items():
                 if isinstance(v, int) and v > 0:
                     dist[k] += 1
             for a in sapp:
-                applicable[a.split(":")[0] if ":" in a else a] += 1
+                applicable[a.split(":")[0] + (":" + a.split(":")[1][:40] if a.startswith("known-deviation") else "")
+                           if ":" in a else a] += 1
+            sig = signature(ev)
+            if sig is not None and sig[0] == "skip":
+                skipped[sig[1]] += 1
+                continue
+            if sig is not None and sig[0] == "unmodelled":
+                unmodelled.append(c)
+                continue
+            if sig is not None and sig[0] == "known":
+                for fid in sig[1]:
+                    known[fid] += 1
+                    R.known_hits[fid] = R.known_hits.get(fid, 0) + 1
+                sig = None
             if nontrivial(st):
                 nontriv.add(vlib.case_hash(c))
                 if sample is None and label == "random":
                     sample = c
-            sig = signature(ev)
             if sig is not None:
                 nfail += 1
                 failures.setdefault(sig, (c, ev))
         if len(failures) >= 6:
             break
 
+    # a failure counts only if a fresh process reproduces it (the loopback network of the sandbox is shared)
+    flaky = []
+    for sig, (c, ev) in list(failures.items()):
+        again = signature(evaluate(exe, [c])[0])
+        if again != sig:
+            flaky.append({"signature": list(sig), "second_run": list(again) if again else None, "case": c,
+                          "impl_first_run": ev[0]})
+            del failures[sig]
+
     R.coverage.update({
         "evaluations": total, "distinct_nontrivial": len(nontriv),
         "rule": "one raw HTTP/1.1 request (request target with arbitrary percent-escapes / raw octets / repeated, encoded, "
-                "malformed query pairs; header lines in random casing and multiplicity incl. the seven forwarding headers; "
-                "any method; binary / chunked bodies) sent from a chosen loopback peer address to the real proxy service "
-                "configured with a trusted-proxy list, a rule with allow_encoded_slashes / forward_to.host / rewrite and a "
-                "pipeline of real header/cookie finalizers (or a scripted one) whose header names collide with the client's; "
+                "malformed query pairs; header lines in random casing and multiplicity incl. the seven forwarding headers, "
+                "Connection lists and hop-by-hop headers; any method token; binary / chunked bodies up to 70 kB) sent from a "
+                "chosen loopback peer address over a plain or TLS listener to the real proxy service configured with a "
+                "trusted-proxy list, a rule with allow_encoded_slashes / forward_to.host / rewrite and a pipeline of real "
+                "header/cookie finalizers (or a scripted one) whose header names collide with the client's (User-Agent, "
+                "Accept-Encoding, Cookie, Host included); a decoy listener stands behind Host values; "
                 "the request read by a raw upstream test server is compared with the Lean model and judged by the Lean "
                 "specification. non-trivial = the request was forwarded AND (its path contains escapes, or a prefix was "
                 "stripped/added, or a listed query parameter was present, or a pipeline header collided with a client header, "
-                "or the client sent forwarding headers); distinct by hash of the case",
+                "or the client sent forwarding / hop-by-hop headers, or the listener is TLS); distinct by hash of the case; "
+                "cases heimdall rejects at rule load time are skipped and counted, cases in a recorded deviation class are "
+                "counted as known findings when implementation = model",
         "outcomes": dict(outcomes), "allow_encoded_slashes": dict(slashes),
         "cases_with_feature": dict(dist), "spec_clause_applicable": dict(applicable),
-        "unmodelled_cases": unmodelled, "corpus_cases": len(corpus), "failing_cases": nfail,
+        "unmodelled_cases": len(unmodelled), "skipped_cases": dict(skipped), "known_deviation_cases": dict(known),
+        "corpus_cases": len(corpus), "failing_cases": nfail, "not_reproduced": len(flaky), "not_reproduced_samples": flaky[:3],
         "samples": [sample if sample is not None else (corpus[0] if corpus else None)],
         "exhaustive": False,
     })
@@ -246,16 +293,22 @@ def run(R):
     R.assumptions += [
         "Go's net/http server (request parsing, canonical header names), httputil.ReverseProxy (hop-by-hop and forwarding "
         "headers removed before Rewrite) and http.Transport (request line, header order, User-Agent, Accept-Encoding, "
-        "framing) are modelled as observed, not verified; hop-by-hop headers, Expect, Upgrade, trailers, HTTP/2 and "
-        "request targets not in origin form are outside the generated space",
-        "the listener of the proxy service is plain HTTP (original scheme http unless a trusted proxy says otherwise)",
+        "framing) are modelled as observed, not verified; protocol upgrades that are accepted (101), trailers, HTTP/2, "
+        "CONNECT, request targets not in origin form, header names/values the HTTP client refuses and cookie names/values "
+        "that need sanitising are outside the generated space",
+        "tracing is not initialised in the harness: the otelhttp transport does not touch Traceparent/Tracestate/Baggage "
+        "(production sets a propagator that overwrites them)",
         "the pipeline is represented by what it produced (AddHeaderForUpstream / AddCookieForUpstream calls in order); "
         "real header and cookie finalizers are used with constant templates",
         "X-Forwarded-Uri values of trusted peers are modelled for origin-form values without fragment only",
         "Content-Length / Transfer-Encoding lines are not compared (the body is compared as bytes)",
     ]
 
-    for sig, (c, ev) in list(failures.items())[:3]:
+    if unmodelled:
+        R.violation(f"{len(unmodelled)} generated case(s) lie outside the modelled input space: the generator and the model "
+                    "no longer agree on the space, the cases were not judged", {"case": unmodelled[0]}, no_input=True)
+    order = {"spec": 0, "model": 1, "harness": 2}
+    for sig, (c, ev) in sorted(failures.items(), key=lambda kv: order.get(kv[0][0], 3))[:3]:
         sc = shrink(exe, c, sig)
         i, mres, st, sres, _ = evaluate(exe, [sc])[0]
         payload = {"case": sc, "impl": i, "model": mres, "spec_violations": sres, "kind": sig[0], "original_case": c}
@@ -283,6 +336,6 @@ def replay(R, path):
     print("spec :", json.dumps(sres))
     R.coverage.update({"obligations": 1, "discharged": 1, "checker_cmd": "replay", "trusted_base": []})
     sig = signature((i, mres, st, sres, []))
-    if sig is not None:
+    if is_failure(sig) or (sig is not None and sig[0] == "unmodelled"):
         R.violation("replay still fails: " + (("; ".join(sres)) if sres else str(sig)),
                     {"case": c, "impl": i, "model": mres, "spec_violations": sres})
